@@ -44,6 +44,8 @@ def enumerate_paths(cfg: CFG, src: int, stops: set, first_label=None, max_paths:
                 if any((k, not vv) in a2 for k, vv in lits):
                     continue
                 a2 = a2 | frozenset(lits)
+            if feasible:
+                a2 = cfg.propagate(s, a2)
             if s in seen and s not in stops:
                 # a loop header may be re-entered once from its own body, and is then left through its exit edge only
                 sn = cfg.nodes[s]
